@@ -221,6 +221,16 @@ func suiteTotality(R *runner, r *rng) {
 		}
 	}
 
+	// transport streams with malformed PES payloads / data units / teletext packets inside a valid packet layer
+	for c := 0; c < N/4; c++ {
+		ts, kinds := hostileTS(r)
+		for _, rd := range readers {
+			if strings.HasPrefix(rd.name, "teletext") && r.chance(1, 2) {
+				run(rd, ts, "total.read.ts-hostile", "malformed PES payloads "+kinds)
+			}
+		}
+	}
+
 	// the opener
 	dir, _ := os.MkdirTemp("", "verif-total")
 	defer os.RemoveAll(dir)
